@@ -6,6 +6,7 @@
     operator_table_sound cmp_probe_agrees prec_probe_agrees function_table_sound
     nodetest_table_sound axis_table_sound pred_eval_sound pred_outcome_sound
     substring_not_xpath ne_absent_not_xpath step_matches_eq_xp parser_rejects_outside
+    select_eq_xp_step
 -/
 import Genshi.Model.Path
 import Genshi.Model.PathParse
@@ -14,6 +15,7 @@ import Genshi.Model.PathRef
 import Genshi.Gen.Path
 import Genshi.Lemmas.PathEval
 import Genshi.Lemmas.PathXp
+import Genshi.Lemmas.PathSelect
 namespace Genshi.Props.C05
 open Genshi Genshi.Path
 
@@ -259,6 +261,53 @@ example : (matched (runTest (pathTest [[⟨.child, .localName false ['b'], [.num
       (Node.elem ⟨[], ['a']⟩ [] [Node.elem ⟨[], ['b']⟩ [] [], Node.elem ⟨[], ['b']⟩ [] []]).flatten)
       (eventLocs (Node.elem ⟨[], ['a']⟩ [] [Node.elem ⟨[], ['b']⟩ [] [], Node.elem ⟨[], ['b']⟩ [] []]) [])).map
         (·.loc) = [[1]] := by decide +kernel
+
+/-- **select_eq_xp** for a single location step (stages 1 and 3 of DESIGN.md section 5 for
+    one step, at full strength).  For every step `axis::test[p1]…[pk]` on the child,
+    descendant, descendant-or-self or self axis, any predicates (positional ones included)
+    and every element tree, `Path.select` on the event stream of the tree — with the strategy
+    `Path.__init__` picks — delivers exactly what XPath 1.0 designates: the outermost nodes of
+    the step's node set, in document order, each element with its complete subtree
+    (`Ref.xpSelect`).  Same hypotheses as `step_matches_eq_xp`.
+
+    Still open for the full `select_eq_xp`: location paths of two and more steps (stage 2:
+    the position sets of GenericStrategy and the KMP automaton of SimplePathStrategy against
+    `Ref.reach`), a final attribute step, unions.  Those are tied by the correspondence
+    (model = code, per event) and the reference oracle only. -/
+theorem select_eq_xp_step (s : Step) (ns : NsMap) (vs : Vars)
+    (tag : QName) (attrs : AttrList) (kids : List Node)
+    (hna : s.axis ≠ .attribute) (hcl : (Node.elem tag attrs kids).clean = true) (hok : okList kids = true)
+    (hwf : s.test.elemWf ns) (htyped : ∀ p ∈ s.preds, p.typed ns vs = true)
+    (hcand : ∀ n ∈ Ref.axisNodes s.axis ⟨[], .elem tag attrs kids⟩, CandOk s ns vs n) :
+    select [[s]] ns vs (Node.elem tag attrs kids).flatten
+      = Ref.xpSelect [[s]] ns (toXVars vs) (.elem tag attrs kids) := by
+  have hs : sSteps [s] = [s] := by
+    have : (s.axis == Axis.attribute) = false := by simpa using hna
+    simp [sSteps, this]
+  have hna' : (s.axis != Axis.attribute) = true := by simpa using hna
+  have hna'' : (s.axis == Axis.attribute) = false := by simpa using hna
+  have hrok : (Node.elem tag attrs kids).ok = true := by simpa [Node.ok] using hok
+  -- the implementation side
+  unfold select
+  simp only [pathTest, List.map_cons, List.map_nil, chooses_single, Option.getD_some, mkMatcher, hs]
+  rw [selectGo_eq_emitV, runTest_single']
+  rw [emitV_pick _ hrok [] _ (okVals_run _ (sStep_out s hna ns vs) _ [] _)]
+  -- the reference side
+  unfold Ref.xpSelect
+  have hasel : Ref.attrsSelected [[s]] ns (toXVars vs) ⟨[], .elem tag attrs kids⟩ = fun _ => [] := by
+    funext n
+    unfold Ref.attrsSelected
+    cases n.node with
+    | leaf e => rfl
+    | elem t a ks =>
+      simp only [List.any_cons, List.any_nil, Bool.or_false, List.getLast?_singleton, hna'', Bool.false_and]
+      exact List.filter_eq_nil_iff.mpr (fun _ _ => by simp)
+  rw [hasel]
+  apply pick_congr
+  intro m _
+  have hm := single_matches s ns vs (.elem tag attrs kids) hna hcl hwf htyped hcand
+  simp only [selOf, hm, contains_map_loc, Ref.nodeSelected, List.any_cons, List.any_nil, Bool.or_false,
+    List.getLast?_singleton, hna', Bool.true_and, Ref.reach]
 
 /-! ## Witnesses of the recorded findings: the full statement is false of the model there -/
 
